@@ -6,6 +6,7 @@ mod build;
 mod codes;
 mod gen;
 mod proj;
+mod reader;
 mod replay;
 mod rng;
 mod slice;
@@ -74,6 +75,7 @@ fn main() {
             match suite {
                 "slice" => slice::record(mode, seed, n, &mut out),
                 "build" => build::record(mode, seed, n, &mut out),
+                "reader" => reader::record(mode, seed, n, &mut out),
                 "codes" => codes::record(mode, seed, n, &mut out, arg(&args, "--shard").map(|s| s.parse().unwrap()).unwrap_or(0), arg(&args, "--of").map(|s| s.parse().unwrap()).unwrap_or(1)),
                 _ => { eprintln!("unknown suite {}", suite); std::process::exit(2) }
             }
@@ -90,6 +92,7 @@ fn main() {
             match suite {
                 "slice" => replay::slice_cases(mode, &cases, &mut out),
                 "build" => build::replay(mode, &cases, &mut out),
+                "reader" => reader::replay(mode, &cases, &mut out),
                 _ => { eprintln!("unknown suite {}", suite); std::process::exit(2) }
             }
             out.finish(&out_path, json!({"cases": cases.len()}));
@@ -107,6 +110,7 @@ fn main() {
             let e = match suite {
                 "slice" => slice::rerun(&ev),
                 "build" => build::rerun(&ev),
+                "reader" => reader::rerun(&ev),
                 "codes" => codes::rerun(&ev),
                 _ => { eprintln!("unknown suite {}", suite); std::process::exit(2) }
             };
